@@ -7,6 +7,7 @@ package sm
 //@ # ======================= gating (C10) =====================================
 //@ func (handshakeOK).ServeDIAM(f, c, m)
 //@   property C10
+//@   may_panic
 //@   requires c != nil && f != nil
 //@   ensures [C10] never_before_the_handshake: !old(hs(c)) ==> fncalls() == old(fncalls())
 //@   ensures [C10] always_after_it: old(hs(c)) ==> fncalls() == old(fncalls()) + 1 && lastfn() == f && lastconn() == c && lastmsg() == m
@@ -194,6 +195,7 @@ package sm
 //@      (has(s.mux.m, "CER") && h == s.mux.m["CER"].h) || (has(s.mux.m, "CEA") && h == s.mux.m["CEA"].h) || (has(s.mux.m, "DWR") && h == s.mux.m["DWR"].h)
 //@ func (*StateMachine).ServeDIAM(sm, c, m)
 //@   property C10
+//@   may_panic
 //@   requires gated(sm) && muxwf(sm.mux) && diam.ALL_CMD_INDEX == allidx() && reqok(m)
 //@   assume default_dictionary_initialised: dict.Default != nil && pwf(dict.Default)
 //@   ensures [C10] at_most_one_handler: handlercalls() == old(handlercalls()) || handlercalls() == old(handlercalls()) + 1
